@@ -32,8 +32,12 @@ fn json_families() -> Vec<(Value, Vec<&'static str>)> {
 }
 
 /// grammars whose lexemes contain one sibling slice but only part of another
-fn lark_families() -> Vec<(Gram, Vec<&'static str>, Option<Vec<&'static str>>)> {
+pub fn lark_families() -> Vec<(Gram, Vec<&'static str>, Option<Vec<&'static str>>)> {
     vec![
+        // three and more sibling slices under one node, a nested slice listed before its siblings (positions among the
+        // children then differ from slice indices); two siblings apply wholesale while a third has to be walked
+        (Gram::Lark("start: item (\",\" item)*\nitem: UPNUM | LOW\nUPNUM: /[0-9A-Z]+/\nLOW: /[a-z]{1,3}/\n".into()), vec!["AB12,abc,xy,Q7", "ab", "abc", "cab", "xyz", "12", "AB", "B1", ",a", "az"], Some(vec!["[a-c]+", "[a-z]+", "[0-9]+", "[A-Z]+"])),
+        (Gram::Lark("start: (A | B | C)+\nA: /[0-9 ]+/\nB: /[a-z]{1,2}!/\nC: /[A-Z]{1,2}\\?/\n".into()), vec!["12 ab!Q?7", "ab", "b!", "Q?", "1 2", "AB", "a!", "zz"], Some(vec!["[x-z]+", "[0-9]+", "[a-z]+", " +", "[A-Z]+", "[A-C]+"])),
         (Gram::Lark("start: (LINE \"\\n\")+\nLINE: /[^\\n]+/\n".into()), vec!["some text here\nand\tmore \r\n", "\t\t", " \t", "\r\n", " \n", "text"], None),
         (Gram::Lark("start: /.*/\n".into()), vec!["any thing\tat all \r", "\t\t", " \t", "thing"], None),
         (Gram::Lark("start: /[0-9]+/ | \"abc\" | \"  \"\n".into()), vec!["12345", "abc", "  ", "ab", "34", " \t", "\n"], Some(vec!["[a-z]+", "[0-9]+", "[ \\t\\n]+"])),
@@ -49,9 +53,9 @@ fn lark_families() -> Vec<(Gram, Vec<&'static str>, Option<Vec<&'static str>>)> 
 fn random_slices(rng: &mut Rng) -> Vec<String> {
     let pool = [
         r#"[a-z]+"#, r#"[a-z]{1,3}"#, r#"[a-z ]{1,8}"#, r#"[a-c]+"#, r#"[a-f0-9]+"#, r#"[^"\\\x00-\x1F\x7F]{1,5}"#,
-        r#"[^"\\\x00-\x1F\x7F]{1,20}"#, r#"[^"\\\x00-\x1F\x7F]+"#, r#"[\x20\x0A\x0D\x09]+"#, r#"[0-9]{1,4}"#, r#" ?[a-z]+"#, r#"[a-z]"#, r#"[b-d]+"#,
+        r#"[^"\\\x00-\x1F\x7F]{1,20}"#, r#"[^"\\\x00-\x1F\x7F]+"#, r#"[\x20\x0A\x0D\x09]+"#, r#"[0-9]{1,4}"#, r#" ?[a-z]+"#, r#"[a-z]"#, r#"[b-d]+"#, r#"[A-Z]+"#, r#"[0-9]+"#, r#"[A-C]+"#,
     ];
-    let n = 1 + rng.below(5);
+    let n = 1 + rng.below(7);
     let mut v: Vec<String> = vec![];
     for _ in 0..n {
         let s = rng.pick(&pool).to_string();
